@@ -48,6 +48,8 @@ TARGETS = [
     ('note_seq.sequences_lib', '_clamp_transpose', 'tr_clamp_transpose', 'Z'),
     ('note_seq.melodies_lib', 'Melody.transpose', 'tr_melody_transpose_event', 'elem'),
     ('note_seq.sequences_lib', '_is_power_of_2', 'tr_is_power_of_2', 'bool'),
+    ('note_seq.musicxml_parser', 'Note.pitch_to_midi_pitch', 'tr_pitch_to_midi_pitch', 'Z'),
+    ('note_seq.performance_lib', 'PerformanceEvent._check_event', 'tr_performance_event_validate', 'unit'),
 ]
 
 # binary64 functions (generated into coq/Gen/TrF.v; parameter types given explicitly, 'F' = Python float)
@@ -99,6 +101,8 @@ class Tr(object):
                 return '(%d)' % e.value, 'Z'
             if isinstance(e.value, float):
                 return self.flit(e.value), 'F'
+            if isinstance(e.value, str) and len(e.value) == 1:
+                return '(%d)' % ord(e.value), 'Z'      # a one-character string constant is its code point
             raise TranslationError('constant %r' % (e.value,))
         if isinstance(e, ast.Name):
             if e.id in env:
@@ -110,6 +114,12 @@ class Tr(object):
             if isinstance(v, float):
                 return self.flit(v), 'F'
             raise TranslationError('unknown name %s' % e.id)
+        if isinstance(e, ast.Attribute) and isinstance(e.value, ast.Name) and e.value.id != 'self':
+            owner = getattr(self.mod, e.value.id, None)
+            v = getattr(owner, e.attr, None) if owner is not None else None
+            if isinstance(v, int) and not isinstance(v, bool):
+                return '(%d)' % v, 'Z'      # Class.CONSTANT, inlined with its current value
+            raise TranslationError('attribute %s' % ast.unparse(e))
         if isinstance(e, ast.Attribute) and isinstance(e.value, ast.Name) and e.value.id == 'self':
             k = 'self.' + e.attr
             if k in env:
@@ -156,6 +166,15 @@ class Tr(object):
             parts = []
             left = e.left
             for op, right in zip(e.ops, e.comparators):
+                if isinstance(op, ast.In) and isinstance(right, ast.Tuple) and right.elts:
+                    a = self.z(left, env)
+                    alts = ['(%s =? %s)' % (a, self.z(x, env)) for x in right.elts]
+                    out = alts[0]
+                    for x in alts[1:]:
+                        out = '(%s || %s)' % (out, x)
+                    parts.append(out)
+                    left = right
+                    continue
                 if self.is_float(left, env) or self.is_float(right, env):
                     a, b = self.f(left, env), self.f(right, env)
                     fsym = {ast.Lt: '(PrimFloat.ltb %s %s)' % (a, b), ast.LtE: '(PrimFloat.leb %s %s)' % (a, b),
@@ -206,6 +225,9 @@ class Tr(object):
                 arg = self.expr(e.args[0].args[0], env)[0]
                 self.guards.append(('fin', arg))               # math.ceil of inf/nan raises
                 return '(%s %s)' % (fn, arg), 'Z'
+            if (isinstance(f, ast.Name) and f.id == 'int' and len(e.args) == 1 and isinstance(e.args[0], ast.Name)
+                    and e.args[0].id in env and self.types.get(env[e.args[0].id], 'Z') == 'Z'):
+                return env[e.args[0].id], 'Z'                  # int() of an integer-valued argument
             if (isinstance(f, ast.Name) and f.id == 'int' and len(e.args) == 1 and not isinstance(e.args[0], ast.Call)
                     and self.is_float(e.args[0], env)):
                 arg = self.expr(e.args[0], env)[0]
@@ -359,6 +381,8 @@ class Tr(object):
             return wrap('Some %s' % text)
         if isinstance(s, ast.Raise):
             return 'None'
+        if isinstance(s, ast.Delete) and all(isinstance(t, ast.Name) for t in s.targets):
+            return self.block(tail, env, rest, kind)      # `del a, b` of local names: no effect on the result
         if kind == 'state':
             box = {}
 
